@@ -641,6 +641,7 @@ pub fn families(prop: &str, tier: Tier) -> Vec<Cfg> {
                 OpK::Disconnect,
             ];
             a.io = IoMenu::faults_only();
+            a.disc_illegal = true;
             a.broker.disconnect = true;
             a.broker.garbage = true;
             a.broker.script = vec![inpub(1, 3)];
